@@ -304,8 +304,24 @@ func exploreAll(p *Pool, r *evid.Run, check string, scns []Scn, bound int, maxEx
 	for _, sc := range scns {
 		roots = append(roots, &Job{Check: check, Scn: sc, Bound: 0})
 	}
+	t0 := time.Now()
 	rres := p.Run(roots)
 	merge(r, rres)
+	if os.Getenv("VERIF_DEBUG") != "" {
+		var ex, st int64
+		for _, x := range rres {
+			if x != nil {
+				ex += x.Execs
+				st += x.Steps
+			}
+		}
+		for i, x := range rres {
+			if x != nil && x.Steps > 3000 {
+				fmt.Fprintf(os.Stderr, "   big root: %s steps=%d\n", scns[i], x.Steps)
+			}
+		}
+		fmt.Fprintf(os.Stderr, "[%s] roots: %d scenarios, %d execs, %d steps, %.1fs\n", check, len(scns), ex, st, time.Since(t0).Seconds())
+	}
 	if bound < 1 {
 		return rres
 	}
@@ -322,7 +338,19 @@ func exploreAll(p *Pool, r *evid.Run, check string, scns []Scn, bound int, maxEx
 			jobs = append(jobs, &Job{Check: check, Scn: sc, Bound: bound, Lo: rg[0], Hi: rg[1], SkipRoot: true, Expect: rres[i].RootOut, MaxExecs: maxExecsPerJob})
 		}
 	}
-	merge(r, p.Run(jobs))
+	t0 = time.Now()
+	jres := p.Run(jobs)
+	merge(r, jres)
+	if os.Getenv("VERIF_DEBUG") != "" {
+		var ex, st int64
+		for _, x := range jres {
+			if x != nil {
+				ex += x.Execs
+				st += x.Steps
+			}
+		}
+		fmt.Fprintf(os.Stderr, "[%s] bound %d: %d jobs, %d execs, %d steps, %.1fs\n", check, bound, len(jobs), ex, st, time.Since(t0).Seconds())
+	}
 	return rres
 }
 
